@@ -254,7 +254,7 @@ def run(ctx):
         ctx.exhaustive = True
     else:
         hot = [t for t in triples if t[0]["clash"] or t[0]["same"]]
-        triples = ctx.rng.sample(hot, 600) + ctx.rng.sample(triples, 300) + \
+        triples = ctx.rng.sample(hot, 450) + ctx.rng.sample(triples, 250) + \
             [(c, m, k) for c in c1 for m in MODES for k in COLLS if c["leaves"][0]["o"] == "P1" or c["fields"][0]["k"] == "leaf"]
     prepare(ctx, triples)
     sc.BASE = str(ctx.scratch)
